@@ -57,6 +57,87 @@ pub fn run() -> i32 {
     let corpus_path = format!("{}/logs/c12_corpus.jsonl", VERIF_ROOT);
     let _ = std::fs::create_dir_all(format!("{}/logs", VERIF_ROOT));
     let corpus = std::sync::Mutex::new(std::io::BufWriter::new(std::fs::File::create(&corpus_path).expect("corpus")));
+    // derivation after other BLAKE2b activity on the same thread (state that should be fresh per
+    // call: scratch buffers, memoised parameters): every sequence of <= 2 "disturbances" from the
+    // menu below, then derivations of three lengths, must still equal libsodium
+    {
+        use dryoc::classic::crypto_generichash::*;
+        let menu: Vec<(&str, fn())> = vec![
+            ("abandon an un-finalised classic generichash state", || {
+                let mut st = crypto_generichash_init(None, 32).unwrap();
+                crypto_generichash_update(&mut st, &[0xabu8; 77]);
+                drop(st);
+            }),
+            ("abandon an un-finalised keyed state after a full block", || {
+                let mut st = crypto_generichash_init(Some(&[7u8; 32][..]), 64).unwrap();
+                crypto_generichash_update(&mut st, &[0xcdu8; 128]);
+                crypto_generichash_update(&mut st, &[0xceu8; 5]);
+                drop(st);
+            }),
+            ("final into a 65-byte output (refused)", || {
+                let mut st = crypto_generichash_init(None, 64).unwrap();
+                crypto_generichash_update(&mut st, b"abc");
+                let mut o = vec![0u8; 65];
+                let _ = crypto_generichash_final(st, &mut o);
+            }),
+            ("init with an over-long key (refused)", || {
+                let _ = crypto_generichash_init(Some(&[1u8; 65][..]), 32).map(drop);
+            }),
+            ("abandon an object-API hasher", || {
+                let mut h = dryoc::generichash::GenericHash::<32, 32>::new_with_defaults::<dryoc::generichash::Key>(None).unwrap();
+                h.update(&[0x11u8; 200]);
+                drop(h);
+            }),
+            ("a complete one-shot hash", || {
+                let mut o = [0u8; 32];
+                crypto_generichash(&mut o, &[0x22u8; 300], None).unwrap();
+            }),
+            ("a derivation of another length", || {
+                let mut o = [0u8; 64];
+                let _ = crypto_kdf_derive_from_key(&mut o, 9, b"othersub", &[3u8; 32]);
+            }),
+        ];
+        let mut seqs: Vec<Vec<usize>> = vec![];
+        for a in 0..menu.len() {
+            seqs.push(vec![a]);
+            for b in 0..menu.len() {
+                seqs.push(vec![a, b]);
+            }
+        }
+        let key: [u8; 32] = karr(seed ^ 0x12, 5);
+        let mut st = Stats::new();
+        for sq in &seqs {
+            // one fresh thread per sequence: what one sequence leaves behind cannot mask another
+            let sq2 = sq.clone();
+            let menu2: Vec<fn()> = menu.iter().map(|m| m.1).collect();
+            let res = std::thread::spawn(move || {
+                guarded(AssertUnwindSafe(|| {
+                    for &i in &sq2 {
+                        menu2[i]();
+                    }
+                    let mut out = vec![];
+                    for len in [16usize, 32, 64] {
+                        out.push((len, derive(len, 5, b"aftersth", &key), sodium::kdf_derive(len, 5, b"aftersth", &key)));
+                    }
+                    // and a second round (the first derivation may itself have repaired the state)
+                    out.push((33, derive(33, 6, b"aftersth", &key), sodium::kdf_derive(33, 6, b"aftersth", &key)));
+                    out
+                }))
+            })
+            .join()
+            .unwrap_or(Err("thread died".into()));
+            let names: Vec<&str> = sq.iter().map(|&i| menu[i].0).collect();
+            let bad = match &res {
+                Err(p) => Some(format!("panicked: {}", p)),
+                Ok(v) => v.iter().find(|(_, got, want)| got.as_ref().ok() != Some(want)).map(|(len, got, want)| format!("subkey of {} bytes: dryoc {:?}, libsodium {:?}", len, got.as_ref().map(|g| g.as_ref().map(|x| hx(x))), want.as_ref().map(|x| hx(x)))),
+            };
+            st.eval(&("after", sq), true, if bad.is_none() { "kdf-after-activity==libsodium" } else { "kdf-after-activity-differs" });
+            if let Some(b) = bad {
+                st.fail(Fail { check: "C12.harness".into(), signature: "C12/derive/differs-after-other-activity".into(), what: format!("after [{}] on the same thread: {}", names.join("; "), b), case: json!({"note": "deterministic: re-run bin/check C12", "sequence": names}) });
+            }
+        }
+        ctx.absorb("after-other-blake2b-activity", st);
+    }
     // lengths far outside the range (a length carried through a narrow integer comes back into
     // range): every length 65..=1100 and the powers of two +- 64 up to 2^20
     {
